@@ -55,7 +55,14 @@ def gen_scenario(rng, small=False):
     svc = {}
     for e in sched:
         for t in ([e["leaf"]] if "leaf" in e else e["par"]):
-            svc[t["name"]] = rng.choice(SVC) if rng.random() < 0.7 else [rng.choice(SVC) for _ in range(3)]
+            r = rng.random()
+            if r < 0.5:
+                svc[t["name"]] = rng.choice(SVC)
+            elif r < 0.75:
+                svc[t["name"]] = [rng.choice(SVC) for _ in range(3)]
+            else:
+                # clients of one task that differ in speed: they finish at different times although they share a worker
+                svc[t["name"]] = {"default": rng.choice(SVC), **{str(c): rng.choice(SVC) for c in rng.sample(range(6), rng.randint(1, 4))}}
     hosts = rng.choice([["localhost"], ["localhost"], ["10.0.0.1", "10.0.0.2"]])
     sc = {
         "schedule": sched,
@@ -200,7 +207,13 @@ def to_model_events(sim, scenario, cfg):
 
 
 def _jcol(cfg, w, m):
-    return m.task[0].task.id
+    # the join point a JoinPointReached message reports; -1 (never a join point id of the model) if the worker reported
+    # something that is not a join point, so that the replay shows the difference instead of the harness failing
+    from esrally.driver import driver
+
+    t = m.task[0] if m.task else None
+    jp = getattr(t, "task", None)
+    return jp.id if isinstance(jp, driver.JoinPoint) else -1
 
 
 def budget(scenario):
@@ -208,7 +221,7 @@ def budget(scenario):
     for e in scenario["schedule"]:
         for t in ([e["leaf"]] if "leaf" in e else e["par"]):
             v = scenario["svc"].get(t["name"], 0.25)
-            mx = max(v) if isinstance(v, list) else v
+            mx = max(v) if isinstance(v, list) else max(v.values()) if isinstance(v, dict) else v
             total += mx * (t.get("iterations") or 1) * 4
     per_step = 12.0 + 3 * scenario.get("max_wakeup_delay", 0.0)
     return 50.0 + total * 3 + per_step * (len(scenario["schedule"]) + 2) * 3
